@@ -1,17 +1,23 @@
 package main
 
 import (
+	"context"
 	"crypto/md5"
 	"encoding/json"
 	"fmt"
 	"math/rand"
 	"sort"
 	"strings"
+	"sync"
 
+	gp2p "github.com/leprosus/golang-p2p"
 	"github.com/my-cloud/ruthenium/validatornode/application"
 	"github.com/my-cloud/ruthenium/validatornode/application/validation"
 	"github.com/my-cloud/ruthenium/validatornode/application/verification"
 	"github.com/my-cloud/ruthenium/validatornode/domain/ledger"
+	"github.com/my-cloud/ruthenium/validatornode/presentation/api/history"
+	vpayment "github.com/my-cloud/ruthenium/validatornode/presentation/api/payment"
+	vwallet "github.com/my-cloud/ruthenium/validatornode/presentation/api/wallet"
 )
 
 // A real, fully wired validator node: real AddressesRegistry, UtxosRegistry, Blockchain and
@@ -26,6 +32,65 @@ type Node struct {
 	Chain     *verification.Blockchain
 	Pool      *validation.TransactionsPool
 	Validator string
+
+	// the validator's own presentation layer, created once per node and kept for its lifetime:
+	// what a peer or the access node gets is what these handlers answer
+	ctlOnce sync.Once
+	utxCtl  *vwallet.UtxosController
+	blkCtl  *history.BlocksController
+	txsCtl  *vpayment.TransactionsController
+}
+
+func (n *Node) controllers() {
+	n.ctlOnce.Do(func() {
+		n.utxCtl = vwallet.NewUtxosController(n.Ureg)
+		n.blkCtl = history.NewBlocksController(n.Chain)
+		n.txsCtl = vpayment.NewTransactionsController(n.Senders, n.Pool)
+	})
+}
+
+// ServedUtxos: the spendable outputs of an address as the node's "utxos" endpoint answers them
+func (n *Node) ServedUtxos(address string) []*ledger.Utxo {
+	n.controllers()
+	res, err := n.utxCtl.HandleUtxosRequest(context.TODO(), gp2p.Data{Bytes: mustJSON(address)})
+	if err != nil {
+		panic(fmt.Sprintf("utxos endpoint: %v", err))
+	}
+	var out []*ledger.Utxo
+	if err := json.Unmarshal(res.GetBytes(), &out); err != nil {
+		panic(fmt.Sprintf("utxos endpoint answered undecodable bytes: %v", err))
+	}
+	return out
+}
+
+// ServedUtxosBytes, ServedBlocksBytes, ServedFirstTimestamp, ServedPoolBytes: the raw answers
+func (n *Node) ServedUtxosBytes(address string) ([]byte, error) {
+	n.controllers()
+	res, err := n.utxCtl.HandleUtxosRequest(context.TODO(), gp2p.Data{Bytes: mustJSON(address)})
+	return res.GetBytes(), err
+}
+func (n *Node) ServedBlocksBytes(h uint64) ([]byte, error) {
+	n.controllers()
+	res, err := n.blkCtl.HandleBlocksRequest(context.TODO(), gp2p.Data{Bytes: mustJSON(h)})
+	if err != nil {
+		return nil, err
+	}
+	return append([]byte(nil), res.GetBytes()...), nil
+}
+func (n *Node) ServedFirstTimestamp() (int64, error) {
+	n.controllers()
+	res, err := n.blkCtl.HandleFirstBlockTimestampRequest(context.TODO(), gp2p.Data{})
+	if err != nil {
+		return 0, err
+	}
+	var ts int64
+	err = json.Unmarshal(res.GetBytes(), &ts)
+	return ts, err
+}
+func (n *Node) ServedPoolBytes() ([]byte, error) {
+	n.controllers()
+	res, err := n.txsCtl.HandleTransactionsRequest(context.TODO(), gp2p.Data{})
+	return res.GetBytes(), err
 }
 
 func NewNode(set *Settings, validator string) *Node {
@@ -74,7 +139,7 @@ func (n *Node) Digest(universe []string) string {
 	var reg []string
 	for _, a := range universe {
 		var l []string
-		for _, u := range n.Ureg.Utxos(a) {
+		for _, u := range n.ServedUtxos(a) {
 			y := "n"
 			if u.IsYielding() {
 				y = "y"
